@@ -12,7 +12,7 @@ import (
 
 func init() {
 	register("C09", propMeta{
-		Explanation: "Reader-contract rule + E-CONST + E-GUARD + E-PANIC on common/encapsulation and its stream feeders. O-1 reader contract: every call of a Read([]byte) (int, error) method must use its count result (or return the pair unchanged), or the read must go through io.ReadFull/ReadAtLeast/CopyN/Copy, which implement the contract for zero-length reads, short reads and data returned together with io.EOF; quick scope: encapsulation and the two packet adapters, thorough: every package. O-1b one reader per stream: the reader handed to encapsulation.ReadData is a pre-existing stream object, not a buffering reader constructed for the single call (its read-ahead would be discarded between packets). O-2 allocation bounded by the announced length: in ReadData the length is built from one byte masked with 0x3f and at most K further bytes masked with 0x7f shifted by 7, the continuation loop leaving with ErrTooLong on the edge i >= K; the bound 2^(6+7K)-1 equals the encoder's limit and the 2^20-1 of the statement. O-3 writer's and reader's tables agree: flag, mask and shift literals of dataPrefixForLength versus ReadData; the padding writer's 3-byte branch (which carries a 0x3f where 0x7f is expected) is dead while the padding buffer is at most 8193 bytes - the checker verifies that precondition. O-4 EOF classes: only the first read of a chunk may return io.EOF unchanged; every later read maps it to io.ErrUnexpectedEOF. O-5 no termination construct on the decode path; the two documented panics (WritePadding(n<0), MaxDataForSize(0)) have no non-test caller. O-6 the codec keeps no shared mutable state: nothing returned or written by the package's functions derives from a package-level variable (concurrent streams would overwrite each other's prefixes). Added after the second seeding round: O-1c at every ReadData call site the call is re-executed only over the err == nil edge of the previous call (no resynchronisation after ErrTooLong or a truncated chunk) and every path from err == nil returns or hands the chunk on before the next ReadData (an empty chunk is delivered, not skipped); O-2 also requires the prefix-length bound to be tested before the continuation byte is read; O-4 accepts the io.EOF mapping inline or in a same-package helper that returns its argument only behind argument != io.EOF; O-6 also counts append/copy into, and method calls on, package-level objects. Added after the third seeding round: the continuation-byte counter restarts for every chunk; the data-channel message handler writes into the receive pipe synchronously (no goroutine per message). Added after the fourth seeding round: O-7/C17 packets queued for encapsulation are private copies of the sender's buffer (C17's copy-on-enqueue obligation). Added after the fifth seeding round: O-8 websocketconn.readLoop copies the message reader itself (no LimitReader/CopyN), and a buffer given to io.CopyBuffer is allocated by the copying function (the two directions of a relay do not share one).",
+		Explanation: "Reader-contract rule + E-CONST + E-GUARD + E-PANIC on common/encapsulation and its stream feeders. O-1 reader contract: every call of a Read([]byte) (int, error) method must use its count result (or return the pair unchanged), or the read must go through io.ReadFull/ReadAtLeast/CopyN/Copy, which implement the contract for zero-length reads, short reads and data returned together with io.EOF; quick scope: encapsulation and the two packet adapters, thorough: every package. O-1b one reader per stream: the reader handed to encapsulation.ReadData is a pre-existing stream object, not a buffering reader constructed for the single call (its read-ahead would be discarded between packets). O-2 allocation bounded by the announced length: in ReadData the length is built from one byte masked with 0x3f and at most K further bytes masked with 0x7f shifted by 7, the continuation loop leaving with ErrTooLong on the edge i >= K; the bound 2^(6+7K)-1 equals the encoder's limit and the 2^20-1 of the statement. O-3 writer's and reader's tables agree: flag, mask and shift literals of dataPrefixForLength versus ReadData; the padding writer's 3-byte branch (which carries a 0x3f where 0x7f is expected) is dead while the padding buffer is at most 8193 bytes - the checker verifies that precondition. O-4 EOF classes: only the first read of a chunk may return io.EOF unchanged; every later read maps it to io.ErrUnexpectedEOF. O-5 no termination construct on the decode path; the two documented panics (WritePadding(n<0), MaxDataForSize(0)) have no non-test caller. O-6 the codec keeps no shared mutable state: nothing returned or written by the package's functions derives from a package-level variable (concurrent streams would overwrite each other's prefixes). Added after the second seeding round: O-1c at every ReadData call site the call is re-executed only over the err == nil edge of the previous call (no resynchronisation after ErrTooLong or a truncated chunk) and every path from err == nil returns or hands the chunk on before the next ReadData (an empty chunk is delivered, not skipped); O-2 also requires the prefix-length bound to be tested before the continuation byte is read; O-4 accepts the io.EOF mapping inline or in a same-package helper that returns its argument only behind argument != io.EOF; O-6 also counts append/copy into, and method calls on, package-level objects. Added after the third seeding round: the continuation-byte counter restarts for every chunk; the data-channel message handler writes into the receive pipe synchronously (no goroutine per message). Added after the fourth seeding round: O-7/C17 packets queued for encapsulation are private copies of the sender's buffer (C17's copy-on-enqueue obligation). Added after the fifth seeding round: O-8 websocketconn.readLoop copies the message reader itself (no LimitReader/CopyN), and a buffer given to io.CopyBuffer is allocated by the copying function (the two directions of a relay do not share one). Added after the sixth seeding round and the mutation audit: O-1e ReadData reads from its reader parameter itself (a reader type of the repository put in between changes the contract); O-8 websocketconn.readLoop passes over a message only when its type was found to be neither text nor binary.",
 		NotDecided:  "round-trip equality over all chunk sequences, MaxDataForSize arithmetic, padding length arithmetic (value-level).",
 		Assumptions: []string{"io.ReadFull/io.CopyN implement the io.Reader contract"},
 	}, runC09)
@@ -45,6 +45,48 @@ func runC09(c *Ctx) {
 	if rd == nil {
 		c.undecided("O-0 anchors", "encapsulation.ReadData", "-", "anchor does not resolve")
 		return
+	}
+	// ReadData reads the caller's reader itself: a reader of the repository's own put in between changes what the
+	// io.Reader contract promises (a wrapper that turns a (0, nil) read into an error rejects a valid stream as soon
+	// as the transport delivers an empty message)
+	{
+		ruleW := "O-1e ReadData reads the caller's reader itself"
+		n := 0
+		for _, d := range deepCalls(rd, 2, "io.ReadFull", "io.ReadAtLeast", "io.CopyN", "io.Copy", "(io.Reader).Read") {
+			ci, ok := d.In.(ssa.CallInstruction)
+			if !ok {
+				continue
+			}
+			var src ssa.Value
+			switch calleeName(ci) {
+			case "io.ReadFull", "io.ReadAtLeast":
+				src = ci.Common().Args[0]
+			case "io.CopyN", "io.Copy":
+				src = ci.Common().Args[1]
+			default:
+				src = ci.Common().Value
+			}
+			n++
+			isParam := xforms(src, func(v ssa.Value) bool {
+				par, isPar := v.(*ssa.Parameter)
+				return isPar && par.Parent() == rd && len(rd.Params) > 0 && par == rd.Params[0]
+			})
+			wrapper := ""
+			if !isParam {
+				if mi, isMI := strip(src).(*ssa.MakeInterface); isMI {
+					wrapper = typeString(mi.X.Type())
+				} else if mi, isMI := src.(*ssa.MakeInterface); isMI {
+					wrapper = typeString(mi.X.Type())
+				}
+			}
+			if wrapper != "" && !strings.Contains(wrapper, modPath) {
+				continue // a reader of the standard library (io.LimitedReader, io.SectionReader) keeps the contract
+			}
+			c.check(isParam, ruleW, "ReadData reads from its reader parameter", p.instrPos(ci), "", "the bytes are read through "+map[bool]string{true: "a value of the repository's type " + wrapper, false: "something other than the reader parameter"}[wrapper != ""]+": what its Read does with short, empty or final reads is then part of the decoder")
+		}
+		if n == 0 {
+			c.undecided(ruleW, "ReadData reads from its reader parameter", p.Pos(rd.Pos()), "no read call found")
+		}
 	}
 	// the chunks the server encapsulates are what the queue holds: a queued packet must be a private copy of the
 	// sender's buffer, or correctly framed chunks carry bytes the sender has since overwritten (C17's obligation)
@@ -898,6 +940,70 @@ func (c *Ctx) checkCarrierCopies() {
 		}
 		if n == 0 {
 			c.undecided(rule, "websocketconn.readLoop copies the message", p.Pos(rl.Pos()), "no io.Copy found")
+		}
+		// every data message is copied: a message can be passed over (the next NextReader reached without the
+		// copy) only when its type was found to be neither text (1) nor binary (2) - the peer chooses the frame
+		// type, and a skipped frame leaves a hole in the byte stream
+		var nr *ssa.Call
+		for _, ci := range callsIn(rl) {
+			if strings.HasSuffix(calleeName(ci), "websocket.Conn).NextReader") {
+				nr, _ = ci.(*ssa.Call)
+			}
+		}
+		copyBlocks := map[*ssa.BasicBlock]bool{}
+		for _, ci := range callsTo(rl, "io.Copy", "io.CopyBuffer") {
+			copyBlocks[ci.Block()] = true
+		}
+		if nr != nil && len(copyBlocks) > 0 {
+			for _, k := range []int64{1, 2} {
+				// edges on which "type != k" has been established
+				ne := condEdges(rl, false, func(a Atom) bool {
+					if a.Op != token.EQL {
+						return false
+					}
+					isT := func(v ssa.Value) bool { cc, i, ok := callResult(v); return ok && cc == nr && i == 0 }
+					kv, okk := constInt(a.Y)
+					if okk && kv == k && isT(a.X) {
+						return true
+					}
+					kv, okk = constInt(a.X)
+					return okk && kv == k && isT(a.Y)
+				})
+				isNE := func(b *ssa.BasicBlock, idx int) bool {
+					for _, e := range ne {
+						if e.From == b && e.Idx == idx {
+							return true
+						}
+					}
+					return false
+				}
+				// a path from the successful NextReader back to NextReader that avoids the copy and never
+				// establishes type != k
+				skipped := false
+				for _, e := range errNilEdges(rl, nr, 2) {
+					seen := map[*ssa.BasicBlock]bool{}
+					var walk func(b *ssa.BasicBlock)
+					walk = func(b *ssa.BasicBlock) {
+						if seen[b] || copyBlocks[b] || skipped {
+							return
+						}
+						seen[b] = true
+						if b == nr.Block() {
+							skipped = true
+							return
+						}
+						for idx, sb := range b.Succs {
+							if isNE(b, idx) {
+								continue
+							}
+							walk(sb)
+						}
+					}
+					walk(e.To())
+				}
+				name := map[int64]string{1: "text", 2: "binary"}[k]
+				c.check(!skipped, rule, "websocketconn.readLoop never passes over a "+name+" message", p.instrPos(nr), "", "the next message can be read without this one having been copied although its type was not found to differ from "+name+": a "+name+" frame is dropped from the stream and the chunk framing above resumes in the middle of a chunk")
+			}
 		}
 	} else {
 		c.undecided(rule, "common/websocketconn.readLoop", "-", "anchor does not resolve")
